@@ -30,49 +30,49 @@ import (
 )
 
 const (
-	tsTop = iota
-	tsConst
-	tsNil
-	tsNonNil
+	reTop = iota
+	reConst
+	reNil
+	reNonNil
 )
 
-type tsVal struct {
+type reVal struct {
 	k int
 	c constant.Value
 }
 
-func (v tsVal) String() string {
+func (v reVal) String() string {
 	switch v.k {
-	case tsConst:
+	case reConst:
 		return v.c.ExactString()
-	case tsNil:
+	case reNil:
 		return "nil"
-	case tsNonNil:
+	case reNonNil:
 		return "nonnil"
 	}
 	return "?"
 }
 
-func tsBool(b bool) tsVal { return tsVal{tsConst, constant.MakeBool(b)} }
+func reBool(b bool) reVal { return reVal{reConst, constant.MakeBool(b)} }
 
-func (v tsVal) isBool() (bool, bool) {
-	if v.k == tsConst && v.c.Kind() == constant.Bool {
+func (v reVal) isBool() (bool, bool) {
+	if v.k == reConst && v.c.Kind() == constant.Bool {
 		return constant.BoolVal(v.c), true
 	}
 	return false, false
 }
 
-// tsCfg is one abstract configuration inside a function activation.
-type tsCfg struct {
-	vars   map[*types.Var]tsVal // tracked, per connection
+// reCfg is one abstract configuration inside a function activation.
+type reCfg struct {
+	vars   map[*types.Var]reVal // tracked, per connection
 	taint  bool                 // some tracked value was guessed on the way here
-	locals map[types.Object]tsVal
-	tags   map[*ast.SwitchStmt]tsVal
+	locals map[types.Object]reVal
+	tags   map[*ast.SwitchStmt]reVal
 	defers []*ast.CallExpr
 }
 
-func (c tsCfg) clone() tsCfg {
-	n := tsCfg{vars: map[*types.Var]tsVal{}, taint: c.taint, locals: map[types.Object]tsVal{}, tags: map[*ast.SwitchStmt]tsVal{}}
+func (c reCfg) clone() reCfg {
+	n := reCfg{vars: map[*types.Var]reVal{}, taint: c.taint, locals: map[types.Object]reVal{}, tags: map[*ast.SwitchStmt]reVal{}}
 	for k, v := range c.vars {
 		n.vars[k] = v
 	}
@@ -86,13 +86,13 @@ func (c tsCfg) clone() tsCfg {
 	return n
 }
 
-type tsExit struct {
-	vars  map[*types.Var]tsVal
+type reExit struct {
+	vars  map[*types.Var]reVal
 	taint bool
-	ret   tsVal
+	ret   reVal
 }
 
-type tsPanic struct {
+type rePanic struct {
 	Func  string
 	Pos   string
 	What  string
@@ -101,7 +101,7 @@ type tsPanic struct {
 	Phase string
 }
 
-type tsEngine struct {
+type reEngine struct {
 	pp        *prProg
 	tracked   map[*types.Var]string
 	order     []*types.Var
@@ -109,9 +109,9 @@ type tsEngine struct {
 	helloObj  types.Object // package variable HelloGolang
 	idField   *types.Var   // UConn.ClientHelloID
 	relevant  map[*prFunc]bool
-	memo      map[string][]tsExit
+	memo      map[string][]reExit
 	stack     []*prFunc
-	panics    map[string]*tsPanic
+	panics    map[string]*rePanic
 	phase     string
 	steps     int
 	exhausted bool
@@ -121,7 +121,7 @@ type tsEngine struct {
 	tlocals   map[*prFunc]map[types.Object]bool
 }
 
-func (e *tsEngine) varsKey(vars map[*types.Var]tsVal, taint bool) string {
+func (e *reEngine) varsKey(vars map[*types.Var]reVal, taint bool) string {
 	var sb strings.Builder
 	for _, v := range e.order {
 		sb.WriteString(e.tracked[v])
@@ -135,11 +135,11 @@ func (e *tsEngine) varsKey(vars map[*types.Var]tsVal, taint bool) string {
 	return sb.String()
 }
 
-func (e *tsEngine) cfgKey(c tsCfg) string {
+func (e *reEngine) cfgKey(c reCfg) string {
 	s := e.varsKey(c.vars, c.taint)
 	var ls []string
 	for o, v := range c.locals {
-		if v.k != tsTop {
+		if v.k != reTop {
 			ls = append(ls, fmt.Sprintf("%s@%d=%s", o.Name(), o.Pos(), v))
 		}
 	}
@@ -155,8 +155,8 @@ func (e *tsEngine) cfgKey(c tsCfg) string {
 }
 
 // newTsEngine discovers the tracked variables and the initial state.
-func newTsEngine(pp *prProg) (*tsEngine, map[*types.Var]tsVal, string) {
-	e := &tsEngine{pp: pp, tracked: map[*types.Var]string{}, memo: map[string][]tsExit{}, panics: map[string]*tsPanic{}, funcsSeen: map[*prFunc]bool{}}
+func newTsEngine(pp *prProg) (*reEngine, map[*types.Var]reVal, string) {
+	e := &reEngine{pp: pp, tracked: map[*types.Var]string{}, memo: map[string][]reExit{}, panics: map[string]*rePanic{}, funcsSeen: map[*prFunc]bool{}}
 	scope := pp.c.P.TLS.Types.Scope()
 	ctrl, _ := scope.Lookup("sessionController").(*types.TypeName)
 	uconn, _ := scope.Lookup("UConn").(*types.TypeName)
@@ -168,20 +168,20 @@ func newTsEngine(pp *prProg) (*tsEngine, map[*types.Var]tsVal, string) {
 	if !ok {
 		return nil, nil, "sessionController is not a struct"
 	}
-	init := map[*types.Var]tsVal{}
-	zero := func(t types.Type) tsVal {
+	init := map[*types.Var]reVal{}
+	zero := func(t types.Type) reVal {
 		switch u := t.Underlying().(type) {
 		case *types.Basic:
 			if u.Info()&types.IsBoolean != 0 {
-				return tsBool(false)
+				return reBool(false)
 			}
 			if u.Info()&types.IsInteger != 0 {
-				return tsVal{tsConst, constant.MakeInt64(0)}
+				return reVal{reConst, constant.MakeInt64(0)}
 			}
 		case *types.Pointer, *types.Interface, *types.Slice, *types.Map, *types.Signature:
-			return tsVal{k: tsNil}
+			return reVal{k: reNil}
 		}
-		return tsVal{}
+		return reVal{}
 	}
 	trackable := func(t types.Type) bool {
 		switch u := t.Underlying().(type) {
@@ -231,7 +231,7 @@ func newTsEngine(pp *prProg) (*tsEngine, map[*types.Var]tsVal, string) {
 			if p, isPtr := f.Type().(*types.Pointer); isPtr && types.Identical(p.Elem(), ctrl.Type()) {
 				e.tracked[f] = n.Obj().Name() + "." + f.Name()
 				e.order = append(e.order, f)
-				init[f] = tsVal{k: tsNonNil}
+				init[f] = reVal{k: reNonNil}
 			}
 		}
 	}
@@ -242,7 +242,7 @@ func newTsEngine(pp *prProg) (*tsEngine, map[*types.Var]tsVal, string) {
 				if f := cs.Field(i); f.Name() == "isClient" && trackable(f.Type()) {
 					e.tracked[f] = "Conn.isClient"
 					e.order = append(e.order, f)
-					init[f] = tsVal{}
+					init[f] = reVal{}
 					if uc := pp.lookup("", "", "UClient"); uc != nil {
 						ast.Inspect(uc.decl.Body, func(n ast.Node) bool {
 							kv, ok := n.(*ast.KeyValueExpr)
@@ -251,7 +251,7 @@ func newTsEngine(pp *prProg) (*tsEngine, map[*types.Var]tsVal, string) {
 							}
 							if id, _ := kv.Key.(*ast.Ident); id != nil && uc.pkg.TypesInfo.Uses[id] == types.Object(f) {
 								if tv := uc.pkg.TypesInfo.Types[kv.Value]; tv.Value != nil {
-									init[f] = tsVal{tsConst, tv.Value}
+									init[f] = reVal{reConst, tv.Value}
 								}
 							}
 							return true
@@ -292,14 +292,14 @@ func newTsEngine(pp *prProg) (*tsEngine, map[*types.Var]tsVal, string) {
 			info := ctor.pkg.TypesInfo
 			switch {
 			case an.IsNilIdent(info, kv.Value):
-				init[fv] = tsVal{k: tsNil}
+				init[fv] = reVal{k: reNil}
 			case info.Types[kv.Value].Value != nil:
-				init[fv] = tsVal{tsConst, info.Types[kv.Value].Value}
+				init[fv] = reVal{reConst, info.Types[kv.Value].Value}
 			default:
 				if _, isRef := fv.Type().Underlying().(*types.Basic); !isRef {
-					init[fv] = tsVal{k: tsNonNil}
+					init[fv] = reVal{k: reNonNil}
 				} else {
-					init[fv] = tsVal{}
+					init[fv] = reVal{}
 				}
 			}
 		}
@@ -315,7 +315,7 @@ func newTsEngine(pp *prProg) (*tsEngine, map[*types.Var]tsVal, string) {
 // computeRelevant: functions that mention a tracked field, compare with HelloGolang, or
 // statically call such a function. Everything else cannot change or test the tracked
 // state and is skipped.
-func (e *tsEngine) computeRelevant() {
+func (e *reEngine) computeRelevant() {
 	e.relevant = map[*prFunc]bool{}
 	for _, f := range e.pp.funcs {
 		info := f.pkg.TypesInfo
@@ -361,12 +361,12 @@ func (e *tsEngine) computeRelevant() {
 
 // ---- evaluation
 
-type tsOut struct {
-	c tsCfg
-	v tsVal
+type reOut struct {
+	c reCfg
+	v reVal
 }
 
-func (e *tsEngine) trackedField(info *types.Info, x ast.Expr) *types.Var {
+func (e *reEngine) trackedField(info *types.Info, x ast.Expr) *types.Var {
 	se, ok := an.Unparen(x).(*ast.SelectorExpr)
 	if !ok {
 		return nil
@@ -383,7 +383,7 @@ func (e *tsEngine) trackedField(info *types.Info, x ast.Expr) *types.Var {
 }
 
 // isGolangCompare: x is UConn.ClientHelloID and y is HelloGolang (either order).
-func (e *tsEngine) isGolangCompare(info *types.Info, a, b ast.Expr) bool {
+func (e *reEngine) isGolangCompare(info *types.Info, a, b ast.Expr) bool {
 	isID := func(x ast.Expr) bool {
 		se, ok := an.Unparen(x).(*ast.SelectorExpr)
 		if !ok {
@@ -399,51 +399,51 @@ func (e *tsEngine) isGolangCompare(info *types.Info, a, b ast.Expr) bool {
 	return (isID(a) && isHello(b)) || (isID(b) && isHello(a))
 }
 
-func (e *tsEngine) eval(f *prFunc, x ast.Expr, c tsCfg) []tsOut {
+func (e *reEngine) eval(f *prFunc, x ast.Expr, c reCfg) []reOut {
 	info := f.pkg.TypesInfo
 	x = an.Unparen(x)
 	if tv, ok := info.Types[x]; ok && tv.Value != nil {
-		return []tsOut{{c, tsVal{tsConst, tv.Value}}}
+		return []reOut{{c, reVal{reConst, tv.Value}}}
 	}
 	if an.IsNilIdent(info, x) {
-		return []tsOut{{c, tsVal{k: tsNil}}}
+		return []reOut{{c, reVal{k: reNil}}}
 	}
 	switch n := x.(type) {
 	case *ast.Ident:
 		if o := objOf(info, n); o != nil {
 			if v, ok := c.locals[o]; ok {
-				return []tsOut{{c, v}}
+				return []reOut{{c, v}}
 			}
 		}
-		return []tsOut{{c, tsVal{}}}
+		return []reOut{{c, reVal{}}}
 	case *ast.SelectorExpr:
 		if fv := e.trackedField(info, n); fv != nil {
-			return []tsOut{{c, c.vars[fv]}}
+			return []reOut{{c, c.vars[fv]}}
 		}
-		return []tsOut{{c, tsVal{}}}
+		return []reOut{{c, reVal{}}}
 	case *ast.UnaryExpr:
 		switch n.Op {
 		case token.NOT:
-			var out []tsOut
+			var out []reOut
 			for _, o := range e.eval(f, n.X, c) {
 				if b, ok := o.v.isBool(); ok {
-					out = append(out, tsOut{o.c, tsBool(!b)})
+					out = append(out, reOut{o.c, reBool(!b)})
 				} else {
-					out = append(out, tsOut{o.c, tsVal{}})
+					out = append(out, reOut{o.c, reVal{}})
 				}
 			}
 			return out
 		case token.AND:
-			return []tsOut{{c, tsVal{k: tsNonNil}}}
+			return []reOut{{c, reVal{k: reNonNil}}}
 		}
-		return []tsOut{{c, tsVal{}}}
+		return []reOut{{c, reVal{}}}
 	case *ast.BinaryExpr:
 		switch n.Op {
 		case token.LAND, token.LOR:
-			var out []tsOut
+			var out []reOut
 			for _, pol := range []bool{true, false} {
 				for _, s := range e.assume(f, n, pol, c) {
-					out = append(out, tsOut{s.c, s.v(pol)})
+					out = append(out, reOut{s.c, s.v(pol)})
 				}
 			}
 			return out
@@ -451,71 +451,71 @@ func (e *tsEngine) eval(f *prFunc, x ast.Expr, c tsCfg) []tsOut {
 			if e.isGolangCompare(info, n.X, n.Y) {
 				v := c.vars[e.golang]
 				if b, ok := v.isBool(); ok {
-					return []tsOut{{c, tsBool(b == (n.Op == token.EQL))}}
+					return []reOut{{c, reBool(b == (n.Op == token.EQL))}}
 				}
-				return []tsOut{{c, tsVal{}}}
+				return []reOut{{c, reVal{}}}
 			}
-			var out []tsOut
+			var out []reOut
 			for _, l := range e.eval(f, n.X, c) {
 				for _, r := range e.eval(f, n.Y, l.c) {
-					out = append(out, tsOut{r.c, tsCompare(l.v, r.v, n.Op == token.EQL)})
+					out = append(out, reOut{r.c, reCompare(l.v, r.v, n.Op == token.EQL)})
 				}
 			}
 			return out
 		}
-		return []tsOut{{c, tsVal{}}}
+		return []reOut{{c, reVal{}}}
 	case *ast.CallExpr:
 		return e.call(f, n, c)
 	case *ast.CompositeLit, *ast.FuncLit:
-		return []tsOut{{c, tsVal{k: tsNonNil}}}
+		return []reOut{{c, reVal{k: reNonNil}}}
 	case *ast.TypeAssertExpr:
 		if n.Type == nil {
 			// x.(type): inside a case clause naming a type the bound value is not nil
-			return []tsOut{{c, tsVal{k: tsNonNil}}}
+			return []reOut{{c, reVal{k: reNonNil}}}
 		}
 	}
-	return []tsOut{{c, tsVal{}}}
+	return []reOut{{c, reVal{}}}
 }
 
-func tsCompare(a, b tsVal, eq bool) tsVal {
-	res := func(same bool) tsVal { return tsBool(same == eq) }
+func reCompare(a, b reVal, eq bool) reVal {
+	res := func(same bool) reVal { return reBool(same == eq) }
 	switch {
-	case a.k == tsConst && b.k == tsConst:
+	case a.k == reConst && b.k == reConst:
 		if a.c.Kind() == constant.Bool || b.c.Kind() == constant.Bool {
 			if a.c.Kind() == b.c.Kind() {
 				return res(constant.BoolVal(a.c) == constant.BoolVal(b.c))
 			}
-			return tsVal{}
+			return reVal{}
 		}
 		if a.c.Kind() == constant.String || b.c.Kind() == constant.String {
 			if a.c.Kind() == b.c.Kind() {
 				return res(constant.StringVal(a.c) == constant.StringVal(b.c))
 			}
-			return tsVal{}
+			return reVal{}
 		}
 		return res(constant.Compare(a.c, token.EQL, b.c))
-	case a.k == tsNil && b.k == tsNil:
+	case a.k == reNil && b.k == reNil:
 		return res(true)
-	case (a.k == tsNil && b.k == tsNonNil) || (a.k == tsNonNil && b.k == tsNil):
+	case (a.k == reNil && b.k == reNonNil) || (a.k == reNonNil && b.k == reNil):
 		return res(false)
 	}
-	return tsVal{}
+	return reVal{}
 }
 
-type tsAssumed struct {
-	c       tsCfg
+type reAssumed struct {
+	c       reCfg
 	decided bool // the outcome followed from known values only
 }
 
-func (s tsAssumed) v(pol bool) tsVal {
+func (s reAssumed) v(pol bool) reVal {
 	if s.decided {
-		return tsBool(pol)
+		return reBool(pol)
 	}
-	return tsVal{}
+	return reVal{}
 }
 
 // mentionsTracked: the expression reads a tracked variable (directly).
-func (e *tsEngine) mentionsTracked(f *prFunc, x ast.Expr) bool {
+func (e *reEngine) mentionsTracked(f *prFunc, x ast.Expr) bool {
 	info := f.pkg.TypesInfo
 	hit := false
 	ast.Inspect(x, func(n ast.Node) bool {
@@ -534,7 +534,7 @@ func (e *tsEngine) mentionsTracked(f *prFunc, x ast.Expr) bool {
 
 // guessesEnum: the atomic condition reads a tracked variable of integer (enumeration) type
 // whose value is unknown here.
-func (e *tsEngine) guessesEnum(f *prFunc, x ast.Expr) bool {
+func (e *reEngine) guessesEnum(f *prFunc, x ast.Expr) bool {
 	info := f.pkg.TypesInfo
 	hit := false
 	ast.Inspect(x, func(n ast.Node) bool {
@@ -549,7 +549,7 @@ func (e *tsEngine) guessesEnum(f *prFunc, x ast.Expr) bool {
 }
 
 // assume returns the configurations in which cond evaluates to pol.
-func (e *tsEngine) assume(f *prFunc, cond ast.Expr, pol bool, c tsCfg) []tsAssumed {
+func (e *reEngine) assume(f *prFunc, cond ast.Expr, pol bool, c reCfg) []reAssumed {
 	info := f.pkg.TypesInfo
 	cond = an.Unparen(cond)
 	if u, ok := cond.(*ast.UnaryExpr); ok && u.Op == token.NOT {
@@ -557,12 +557,12 @@ func (e *tsEngine) assume(f *prFunc, cond ast.Expr, pol bool, c tsCfg) []tsAssum
 	}
 	if be, ok := cond.(*ast.BinaryExpr); ok && (be.Op == token.LAND || be.Op == token.LOR) {
 		and := be.Op == token.LAND
-		var out []tsAssumed
+		var out []reAssumed
 		if and == pol {
 			// both operands must have value pol
 			for _, l := range e.assume(f, be.X, pol, c) {
 				for _, r := range e.assume(f, be.Y, pol, l.c) {
-					out = append(out, tsAssumed{r.c, l.decided && r.decided})
+					out = append(out, reAssumed{r.c, l.decided && r.decided})
 				}
 			}
 			return out
@@ -571,17 +571,17 @@ func (e *tsEngine) assume(f *prFunc, cond ast.Expr, pol bool, c tsCfg) []tsAssum
 		out = append(out, e.assume(f, be.X, pol, c)...)
 		for _, l := range e.assume(f, be.X, !pol, c) {
 			for _, r := range e.assume(f, be.Y, pol, l.c) {
-				out = append(out, tsAssumed{r.c, l.decided && r.decided})
+				out = append(out, reAssumed{r.c, l.decided && r.decided})
 			}
 		}
 		return out
 	}
 	// atomic
-	var out []tsAssumed
+	var out []reAssumed
 	for _, o := range e.eval(f, cond, c) {
 		if b, ok := o.v.isBool(); ok {
 			if b == pol {
-				out = append(out, tsAssumed{o.c, true})
+				out = append(out, reAssumed{o.c, true})
 			}
 			continue
 		}
@@ -594,14 +594,14 @@ func (e *tsEngine) assume(f *prFunc, cond ast.Expr, pol bool, c tsCfg) []tsAssum
 			nc.taint = true
 		}
 		e.refine(f, info, cond, pol, &nc)
-		out = append(out, tsAssumed{nc, false})
+		out = append(out, reAssumed{nc, false})
 	}
 	return out
 }
 
 // refine records what an unknown atomic condition having value pol implies.
-func (e *tsEngine) refine(f *prFunc, info *types.Info, cond ast.Expr, pol bool, c *tsCfg) {
-	set := func(x ast.Expr, v tsVal) {
+func (e *reEngine) refine(f *prFunc, info *types.Info, cond ast.Expr, pol bool, c *reCfg) {
+	set := func(x ast.Expr, v reVal) {
 		if fv := e.trackedField(info, x); fv != nil {
 			c.vars[fv] = v
 			return
@@ -616,33 +616,33 @@ func (e *tsEngine) refine(f *prFunc, info *types.Info, cond ast.Expr, pol bool, 
 	}
 	switch n := cond.(type) {
 	case *ast.Ident, *ast.SelectorExpr:
-		set(n.(ast.Expr), tsBool(pol))
+		set(n.(ast.Expr), reBool(pol))
 	case *ast.BinaryExpr:
 		if n.Op != token.EQL && n.Op != token.NEQ {
 			return
 		}
 		if e.isGolangCompare(info, n.X, n.Y) {
-			c.vars[e.golang] = tsBool((n.Op == token.EQL) == pol)
+			c.vars[e.golang] = reBool((n.Op == token.EQL) == pol)
 			return
 		}
 		equal := (n.Op == token.EQL) == pol
 		for _, pair := range [][2]ast.Expr{{n.X, n.Y}, {n.Y, n.X}} {
 			other := pair[1]
-			var ov tsVal
+			var ov reVal
 			if tv, ok := info.Types[other]; ok && tv.Value != nil {
-				ov = tsVal{tsConst, tv.Value}
+				ov = reVal{reConst, tv.Value}
 			} else if an.IsNilIdent(info, other) {
-				ov = tsVal{k: tsNil}
+				ov = reVal{k: reNil}
 			} else {
 				continue
 			}
 			switch {
 			case equal:
 				set(pair[0], ov)
-			case ov.k == tsNil:
-				set(pair[0], tsVal{k: tsNonNil})
-			case ov.k == tsConst && ov.c.Kind() == constant.Bool:
-				set(pair[0], tsBool(!constant.BoolVal(ov.c)))
+			case ov.k == reNil:
+				set(pair[0], reVal{k: reNonNil})
+			case ov.k == reConst && ov.c.Kind() == constant.Bool:
+				set(pair[0], reBool(!constant.BoolVal(ov.c)))
 			}
 		}
 	}
@@ -650,7 +650,7 @@ func (e *tsEngine) refine(f *prFunc, info *types.Info, cond ast.Expr, pol bool, 
 
 // ---- calls
 
-func (e *tsEngine) recordPanic(f *prFunc, n ast.Node, what string, c tsCfg) {
+func (e *reEngine) recordPanic(f *prFunc, n ast.Node, what string, c reCfg) {
 	if c.taint {
 		return
 	}
@@ -662,7 +662,7 @@ func (e *tsEngine) recordPanic(f *prFunc, n ast.Node, what string, c tsCfg) {
 	if _, dup := e.panics[key]; dup {
 		return
 	}
-	e.panics[key] = &tsPanic{Func: f.Name(), Pos: e.pp.c.Pos(n), What: what, State: e.varsKey(c.vars, false), Path: strings.Join(path, " -> "), Phase: e.phase}
+	e.panics[key] = &rePanic{Func: f.Name(), Pos: e.pp.c.Pos(n), What: what, State: e.varsKey(c.vars, false), Path: strings.Join(path, " -> "), Phase: e.phase}
 }
 
 // trackableLocals: the locals of f whose value can carry information about the tracked
@@ -670,7 +670,7 @@ func (e *tsEngine) recordPanic(f *prFunc, n ast.Node, what string, c tsCfg) {
 // tracked state or from the result of a call the interpreter follows. Every other local
 // stays unknown, which keeps the number of configurations proportional to the tracked
 // state rather than to the number of boolean locals of large functions.
-func (e *tsEngine) trackableLocals(f *prFunc) map[types.Object]bool {
+func (e *reEngine) trackableLocals(f *prFunc) map[types.Object]bool {
 	if e.tlocals == nil {
 		e.tlocals = map[*prFunc]map[types.Object]bool{}
 	}
@@ -765,7 +765,7 @@ func (e *tsEngine) trackableLocals(f *prFunc) map[types.Object]bool {
 	return m
 }
 
-func (e *tsEngine) kindOf(t *prFunc) prPanicKind {
+func (e *reEngine) kindOf(t *prFunc) prPanicKind {
 	if e.kinds == nil {
 		e.kinds = map[*prFunc]prPanicKind{}
 	}
@@ -779,7 +779,7 @@ func (e *tsEngine) kindOf(t *prFunc) prPanicKind {
 
 // stateGuarded: the panic call is control-dependent on a condition (or switch tag) that
 // reads the tracked state; other panics are outside this rule.
-func (e *tsEngine) stateGuarded(f *prFunc, call *ast.CallExpr) bool {
+func (e *reEngine) stateGuarded(f *prFunc, call *ast.CallExpr) bool {
 	if loc, ok := f.points[call]; ok {
 		for _, dc := range prDominatingConds(loc.fn, loc.p) {
 			if e.mentionsTracked(f, dc.cond) {
@@ -802,7 +802,7 @@ func (e *tsEngine) stateGuarded(f *prFunc, call *ast.CallExpr) bool {
 // resolveFieldFunc: a call through a func-typed struct field that the module assigns a
 // method value to (c.handshakeFn = c.clientHandshake). Prefers targets whose receiver is
 // the type the current activation chain started on (UConn).
-func (e *tsEngine) resolveFieldFunc(f *prFunc, call *ast.CallExpr) []*prFunc {
+func (e *reEngine) resolveFieldFunc(f *prFunc, call *ast.CallExpr) []*prFunc {
 	info := f.pkg.TypesInfo
 	se, ok := an.Unparen(call.Fun).(*ast.SelectorExpr)
 	if !ok {
@@ -854,13 +854,13 @@ func (e *tsEngine) resolveFieldFunc(f *prFunc, call *ast.CallExpr) []*prFunc {
 	return all
 }
 
-func (e *tsEngine) call(f *prFunc, call *ast.CallExpr, c tsCfg) []tsOut {
+func (e *reEngine) call(f *prFunc, call *ast.CallExpr, c reCfg) []reOut {
 	info := f.pkg.TypesInfo
 	if tv, ok := info.Types[call.Fun]; ok && tv.IsType() {
 		if len(call.Args) == 1 {
 			return e.eval(f, call.Args[0], c)
 		}
-		return []tsOut{{c, tsVal{}}}
+		return []reOut{{c, reVal{}}}
 	}
 	// builtin panic
 	if id, ok := an.Unparen(call.Fun).(*ast.Ident); ok {
@@ -872,16 +872,16 @@ func (e *tsEngine) call(f *prFunc, call *ast.CallExpr, c tsCfg) []tsOut {
 				return nil
 			}
 			if b.Name() == "new" || b.Name() == "make" {
-				return []tsOut{{c, tsVal{k: tsNonNil}}}
+				return []reOut{{c, reVal{k: reNonNil}}}
 			}
-			return []tsOut{{c, tsVal{}}}
+			return []reOut{{c, reVal{}}}
 		}
 	}
 	var targets []*prFunc
 	if fn, _ := an.Callee(info, call).(*types.Func); fn != nil {
 		if sig := fn.Type().(*types.Signature); sig.Recv() != nil {
 			if _, isI := sig.Recv().Type().Underlying().(*types.Interface); isI {
-				return []tsOut{{c, tsVal{}}} // dynamic dispatch: no effect on the tracked state assumed
+				return []reOut{{c, reVal{}}} // dynamic dispatch: no effect on the tracked state assumed
 			}
 		}
 		if t := e.pp.byObj[fn.Origin()]; t != nil {
@@ -891,9 +891,9 @@ func (e *tsEngine) call(f *prFunc, call *ast.CallExpr, c tsCfg) []tsOut {
 		targets = e.resolveFieldFunc(f, call)
 	}
 	if len(targets) == 0 {
-		return []tsOut{{c, tsVal{}}}
+		return []reOut{{c, reVal{}}}
 	}
-	var out []tsOut
+	var out []reOut
 	for _, t := range targets {
 		// assertion helper: bool first parameter guarding a panic
 		if k := e.kindOf(t); k.kind == "param" && len(call.Args) >= 1 && e.mentionsTracked(f, call.Args[0]) {
@@ -905,25 +905,25 @@ func (e *tsEngine) call(f *prFunc, call *ast.CallExpr, c tsCfg) []tsOut {
 					continue
 				}
 				for _, h := range holds {
-					out = append(out, tsOut{h.c, tsVal{}})
+					out = append(out, reOut{h.c, reVal{}})
 				}
 				continue
 			}
 		}
 		if !e.relevant[t] {
-			out = append(out, tsOut{c, tsVal{}})
+			out = append(out, reOut{c, reVal{}})
 			continue
 		}
 		// evaluate arguments (left to right, threading the configuration)
-		cfgs := []tsCfg{c}
-		argv := [][]tsVal{nil}
+		cfgs := []reCfg{c}
+		argv := [][]reVal{nil}
 		for _, a := range call.Args {
-			var ncfgs []tsCfg
-			var nargv [][]tsVal
+			var ncfgs []reCfg
+			var nargv [][]reVal
 			for i, cc := range cfgs {
 				for _, o := range e.eval(f, a, cc) {
 					ncfgs = append(ncfgs, o.c)
-					nargv = append(nargv, append(append([]tsVal{}, argv[i]...), o.v))
+					nargv = append(nargv, append(append([]reVal{}, argv[i]...), o.v))
 				}
 			}
 			cfgs, argv = ncfgs, nargv
@@ -931,12 +931,12 @@ func (e *tsEngine) call(f *prFunc, call *ast.CallExpr, c tsCfg) []tsOut {
 		for i, cc := range cfgs {
 			for _, ex := range e.run(t, cc.vars, cc.taint, argv[i]) {
 				nc := cc.clone()
-				nc.vars = map[*types.Var]tsVal{}
+				nc.vars = map[*types.Var]reVal{}
 				for k, v := range ex.vars {
 					nc.vars[k] = v
 				}
 				nc.taint = ex.taint
-				out = append(out, tsOut{nc, ex.ret})
+				out = append(out, reOut{nc, ex.ret})
 			}
 		}
 	}
@@ -944,15 +944,15 @@ func (e *tsEngine) call(f *prFunc, call *ast.CallExpr, c tsCfg) []tsOut {
 }
 
 // run interprets function t from the given tracked state and returns its exits.
-func (e *tsEngine) run(t *prFunc, vars map[*types.Var]tsVal, taint bool, args []tsVal) []tsExit {
+func (e *reEngine) run(t *prFunc, vars map[*types.Var]reVal, taint bool, args []reVal) []reExit {
 	for _, s := range e.stack {
 		if s == t {
-			return []tsExit{{vars, true, tsVal{}}} // recursion: give up precision
+			return []reExit{{vars, true, reVal{}}} // recursion: give up precision
 		}
 	}
 	if len(e.stack) > 40 || e.steps > 400000 {
 		e.exhausted = true
-		return []tsExit{{vars, true, tsVal{}}}
+		return []reExit{{vars, true, reVal{}}}
 	}
 	key := fmt.Sprintf("%s|%d|%s|", e.phase, t.decl.Pos(), e.varsKey(vars, taint))
 	for _, a := range args {
@@ -967,7 +967,7 @@ func (e *tsEngine) run(t *prFunc, vars map[*types.Var]tsVal, taint bool, args []
 	defer func() { e.stack = e.stack[:len(e.stack)-1] }()
 	info := t.pkg.TypesInfo
 
-	start := tsCfg{vars: map[*types.Var]tsVal{}, taint: taint, locals: map[types.Object]tsVal{}, tags: map[*ast.SwitchStmt]tsVal{}}
+	start := reCfg{vars: map[*types.Var]reVal{}, taint: taint, locals: map[types.Object]reVal{}, tags: map[*ast.SwitchStmt]reVal{}}
 	for k, v := range vars {
 		start.vars[k] = v
 	}
@@ -987,17 +987,17 @@ func (e *tsEngine) run(t *prFunc, vars map[*types.Var]tsVal, taint bool, args []
 	}
 	if t.decl.Recv != nil && len(t.decl.Recv.List) == 1 && len(t.decl.Recv.List[0].Names) == 1 {
 		if o := info.Defs[t.decl.Recv.List[0].Names[0]]; o != nil {
-			start.locals[o] = tsVal{k: tsNonNil}
+			start.locals[o] = reVal{k: reNonNil}
 		}
 	}
 
-	var exits []tsExit
+	var exits []reExit
 	exitSeen := map[string]bool{}
-	addExit := func(c tsCfg, ret tsVal) {
+	addExit := func(c reCfg, ret reVal) {
 		// run defers, last registered first
-		cfgs := []tsCfg{c}
+		cfgs := []reCfg{c}
 		for d := len(c.defers) - 1; d >= 0; d-- {
-			var next []tsCfg
+			var next []reCfg
 			for _, cc := range cfgs {
 				for _, o := range e.call(t, c.defers[d], cc) {
 					next = append(next, o.c)
@@ -1009,18 +1009,18 @@ func (e *tsEngine) run(t *prFunc, vars map[*types.Var]tsVal, taint bool, args []
 			k := e.varsKey(cc.vars, cc.taint) + "|" + ret.String()
 			if !exitSeen[k] {
 				exitSeen[k] = true
-				vs := map[*types.Var]tsVal{}
+				vs := map[*types.Var]reVal{}
 				for kk, v := range cc.vars {
 					vs[kk] = v
 				}
-				exits = append(exits, tsExit{vs, cc.taint, ret})
+				exits = append(exits, reExit{vs, cc.taint, ret})
 			}
 		}
 	}
 
 	type item struct {
 		b *cfg.Block
-		c tsCfg
+		c reCfg
 	}
 	seen := map[string]bool{}
 	work := []item{{t.fn.G.Blocks[0], start}}
@@ -1042,7 +1042,7 @@ func (e *tsEngine) run(t *prFunc, vars map[*types.Var]tsVal, taint bool, args []
 			break
 		}
 		b := it.b
-		cfgs := []tsCfg{it.c}
+		cfgs := []reCfg{it.c}
 		// is the last node a branch condition?
 		var cond ast.Expr
 		nNodes := len(b.Nodes)
@@ -1054,7 +1054,7 @@ func (e *tsEngine) run(t *prFunc, vars map[*types.Var]tsVal, taint bool, args []
 		}
 		returned := false
 		for ni := 0; ni < nNodes && len(cfgs) > 0; ni++ {
-			var next []tsCfg
+			var next []reCfg
 			for _, cc := range cfgs {
 				res, ret, isRet := e.exec(t, b.Nodes[ni], cc)
 				if isRet {
@@ -1080,7 +1080,7 @@ func (e *tsEngine) run(t *prFunc, vars map[*types.Var]tsVal, taint bool, args []
 		switch {
 		case len(b.Succs) == 0:
 			for _, cc := range cfgs {
-				addExit(cc, tsVal{})
+				addExit(cc, reVal{})
 			}
 		case cond != nil:
 			cc, isCase := t.parent[cond].(*ast.CaseClause)
@@ -1094,7 +1094,7 @@ func (e *tsEngine) run(t *prFunc, vars map[*types.Var]tsVal, taint bool, args []
 				if sw != nil && sw.Tag != nil {
 					tag := c0.tags[sw]
 					for _, o := range e.eval(t, cond, c0) {
-						r := tsCompare(tag, o.v, true)
+						r := reCompare(tag, o.v, true)
 						if bv, ok := r.isBool(); ok {
 							if bv {
 								work = append(work, item{b.Succs[0], o.c})
@@ -1108,7 +1108,7 @@ func (e *tsEngine) run(t *prFunc, vars map[*types.Var]tsVal, taint bool, args []
 						if e.mentionsTracked(t, sw.Tag) {
 							c1.taint, c2.taint = true, true
 						}
-						if fv := e.trackedField(info, sw.Tag); fv != nil && o.v.k == tsConst {
+						if fv := e.trackedField(info, sw.Tag); fv != nil && o.v.k == reConst {
 							c1.vars[fv] = o.v
 							c1.tags[sw] = o.v
 						}
@@ -1137,9 +1137,9 @@ func (e *tsEngine) run(t *prFunc, vars map[*types.Var]tsVal, taint bool, args []
 
 // exec interprets one CFG node. For a return statement it yields the returned value per
 // configuration and isRet = true.
-func (e *tsEngine) exec(f *prFunc, n ast.Node, c tsCfg) (res []tsOut, ret tsVal, isRet bool) {
+func (e *reEngine) exec(f *prFunc, n ast.Node, c reCfg) (res []reOut, ret reVal, isRet bool) {
 	info := f.pkg.TypesInfo
-	assign := func(lhs ast.Expr, v tsVal, cc *tsCfg) {
+	assign := func(lhs ast.Expr, v reVal, cc *reCfg) {
 		if fv := e.trackedField(info, lhs); fv != nil {
 			cc.vars[fv] = v
 			return
@@ -1153,29 +1153,57 @@ func (e *tsEngine) exec(f *prFunc, n ast.Node, c tsCfg) (res []tsOut, ret tsVal,
 	switch s := n.(type) {
 	case *ast.ReturnStmt:
 		if len(s.Results) == 0 {
-			return []tsOut{{c, tsVal{}}}, tsVal{}, true
+			return []reOut{{c, reVal{}}}, reVal{}, true
+		}
+		// `x.f = fmt.Errorf(...)` immediately followed (same block) by `return x.f`: the
+		// returned error is non-nil although x.f is not a tracked field
+		if last, ok := an.Unparen(s.Results[len(s.Results)-1]).(*ast.SelectorExpr); ok {
+			if blk, ok := f.parent[s].(*ast.BlockStmt); ok {
+				txt := types.ExprString(last)
+				for i := len(blk.List) - 1; i >= 0; i-- {
+					if blk.List[i] == ast.Stmt(s) || blk.List[i].Pos() > s.Pos() {
+						continue
+					}
+					as, ok := blk.List[i].(*ast.AssignStmt)
+					if !ok {
+						if _, isExpr := blk.List[i].(*ast.ExprStmt); isExpr {
+							continue // close(ch) and similar calls do not change the field
+						}
+						break
+					}
+					if len(as.Lhs) == 1 && len(as.Rhs) == 1 && types.ExprString(as.Lhs[0]) == txt {
+						if call, ok := an.Unparen(as.Rhs[0]).(*ast.CallExpr); ok {
+							if fn, ok := an.Callee(f.pkg.TypesInfo, call).(*types.Func); ok && fn.Pkg() != nil &&
+								((fn.Pkg().Path() == "fmt" && fn.Name() == "Errorf") || (fn.Pkg().Path() == "errors" && fn.Name() == "New")) {
+								return []reOut{{c, reVal{k: reNonNil}}}, reVal{}, true
+							}
+						}
+						break
+					}
+				}
+			}
 		}
 		// value of interest: the single result, or the last one (error convention)
-		cfgs := []tsOut{{c, tsVal{}}}
+		cfgs := []reOut{{c, reVal{}}}
 		for i, r := range s.Results {
-			var next []tsOut
+			var next []reOut
 			for _, cc := range cfgs {
 				for _, o := range e.eval(f, r, cc.c) {
 					v := cc.v
 					if i == len(s.Results)-1 {
 						v = o.v
 					}
-					next = append(next, tsOut{o.c, v})
+					next = append(next, reOut{o.c, v})
 				}
 			}
 			cfgs = next
 		}
-		return cfgs, tsVal{}, true
+		return cfgs, reVal{}, true
 	case *ast.AssignStmt:
 		if len(s.Lhs) == len(s.Rhs) && (s.Tok == token.ASSIGN || s.Tok == token.DEFINE) {
-			cfgs := []tsCfg{c}
+			cfgs := []reCfg{c}
 			for i := range s.Rhs {
-				var next []tsCfg
+				var next []reCfg
 				for _, cc := range cfgs {
 					for _, o := range e.eval(f, s.Rhs[i], cc) {
 						nc := o.c.clone()
@@ -1186,14 +1214,14 @@ func (e *tsEngine) exec(f *prFunc, n ast.Node, c tsCfg) (res []tsOut, ret tsVal,
 				cfgs = next
 			}
 			for _, cc := range cfgs {
-				res = append(res, tsOut{cc, tsVal{}})
+				res = append(res, reOut{cc, reVal{}})
 			}
-			return res, tsVal{}, false
+			return res, reVal{}, false
 		}
 		// multi-value or op-assign: effects of the right side, unknown values on the left
-		cfgs := []tsCfg{c}
+		cfgs := []reCfg{c}
 		for _, r := range s.Rhs {
-			var next []tsCfg
+			var next []reCfg
 			for _, cc := range cfgs {
 				for _, o := range e.eval(f, r, cc) {
 					next = append(next, o.c)
@@ -1204,20 +1232,20 @@ func (e *tsEngine) exec(f *prFunc, n ast.Node, c tsCfg) (res []tsOut, ret tsVal,
 		for _, cc := range cfgs {
 			nc := cc.clone()
 			for _, l := range s.Lhs {
-				assign(l, tsVal{}, &nc)
+				assign(l, reVal{}, &nc)
 			}
-			res = append(res, tsOut{nc, tsVal{}})
+			res = append(res, reOut{nc, reVal{}})
 		}
-		return res, tsVal{}, false
+		return res, reVal{}, false
 	case *ast.IncDecStmt:
 		nc := c.clone()
-		assign(s.X, tsVal{}, &nc)
-		return []tsOut{{nc, tsVal{}}}, tsVal{}, false
+		assign(s.X, reVal{}, &nc)
+		return []reOut{{nc, reVal{}}}, reVal{}, false
 	case *ast.ValueSpec:
-		cfgs := []tsCfg{c}
+		cfgs := []reCfg{c}
 		if len(s.Values) == len(s.Names) {
 			for i := range s.Values {
-				var next []tsCfg
+				var next []reCfg
 				for _, cc := range cfgs {
 					for _, o := range e.eval(f, s.Values[i], cc) {
 						nc := o.c.clone()
@@ -1231,39 +1259,39 @@ func (e *tsEngine) exec(f *prFunc, n ast.Node, c tsCfg) (res []tsOut, ret tsVal,
 			}
 		}
 		for _, cc := range cfgs {
-			res = append(res, tsOut{cc, tsVal{}})
+			res = append(res, reOut{cc, reVal{}})
 		}
-		return res, tsVal{}, false
+		return res, reVal{}, false
 	case *ast.ExprStmt:
 		for _, o := range e.eval(f, s.X, c) {
-			res = append(res, tsOut{o.c, tsVal{}})
+			res = append(res, reOut{o.c, reVal{}})
 		}
-		return res, tsVal{}, false
+		return res, reVal{}, false
 	case *ast.DeferStmt:
 		nc := c.clone()
 		nc.defers = append(nc.defers, s.Call)
-		return []tsOut{{nc, tsVal{}}}, tsVal{}, false
+		return []reOut{{nc, reVal{}}}, reVal{}, false
 	case *ast.GoStmt, *ast.SendStmt, *ast.EmptyStmt, *ast.BranchStmt, *ast.LabeledStmt:
-		return []tsOut{{c, tsVal{}}}, tsVal{}, false
+		return []reOut{{c, reVal{}}}, reVal{}, false
 	case ast.Expr:
 		// switch tag, range operand, range key/value, condition of an unconditional shape
 		if sw, ok := f.parent[n].(*ast.SwitchStmt); ok && sw.Tag == s {
 			for _, o := range e.eval(f, s, c) {
 				nc := o.c.clone()
 				nc.tags[sw] = o.v
-				res = append(res, tsOut{nc, tsVal{}})
+				res = append(res, reOut{nc, reVal{}})
 			}
-			return res, tsVal{}, false
+			return res, reVal{}, false
 		}
 		if rs, ok := f.parent[n].(*ast.RangeStmt); ok && (rs.Key == s || rs.Value == s) {
 			nc := c.clone()
-			assign(s, tsVal{}, &nc)
-			return []tsOut{{nc, tsVal{}}}, tsVal{}, false
+			assign(s, reVal{}, &nc)
+			return []reOut{{nc, reVal{}}}, reVal{}, false
 		}
 		for _, o := range e.eval(f, s, c) {
-			res = append(res, tsOut{o.c, tsVal{}})
+			res = append(res, reOut{o.c, reVal{}})
 		}
-		return res, tsVal{}, false
+		return res, reVal{}, false
 	}
-	return []tsOut{{c, tsVal{}}}, tsVal{}, false
+	return []reOut{{c, reVal{}}}, reVal{}, false
 }
